@@ -1536,7 +1536,99 @@ Proof.
       (apply mapM_app_ok; [apply dec_opt_field|]); (apply mapM_app_ok; [apply dec_opt_field|]);
       (apply mapM_app_ok; [exact Hdocf|]).
     + rewrite ?app_nil_r. exact Hlm.
-    + apply mapM_app_ok; [exact Hlm|]. apply dec_extra_full; [apply HF|apply NF].
-    + apply mapM_app_ok; [exact Hlm|]. apply dec_extra_full; [apply HF|apply NF].
-    + apply mapM_app_ok; [exact Hlm|]. apply dec_extra_full; [apply HF|apply NF].
+    + refine (mapM_app_ok dec_kv _ _ _ (dextra _) Hlm _). apply dec_extra_full; [apply HF|apply NF].
+    + refine (mapM_app_ok dec_kv _ _ _ (dextra _) Hlm _). apply dec_extra_full; [apply HF|apply NF].
+    + refine (mapM_app_ok dec_kv _ _ _ (dextra _) Hlm _). apply dec_extra_full; [apply HF|apply NF].
+Qed.
+
+(* -- full mode, re-encoding: with the same derived values the reloaded tree gives the identical full document *)
+Lemma enc_param_full_reload fi p : optdoc_fix (p_doc p) = true -> enc_param_full fi (reload_param p) = enc_param_full fi p.
+Proof.
+  intro H. unfold enc_param_full, reload_param. cbn [p_name p_annotation p_kind p_default p_doc].
+  rewrite !enc_reload_ev, (reload_optdoc_fix _ H). reflexivity.
+Qed.
+Lemma enc_param_full_attach fi p : enc_param_full fi (attach_param p) = enc_param_full fi p.
+Proof. unfold enc_param_full, attach_param. cbn [p_name p_annotation p_kind p_default p_doc]. rewrite !enc_attach_top. reflexivity. Qed.
+
+Lemma enc_extra_full_reload fi x : extra_docs_fix x = true -> enc_extra_full fi (reload_extra x) = enc_extra_full fi x.
+Proof.
+  intro H. destruct x as [fp|bases decos|decos params ret|v a]; try (apply enc_reload_extra; assumption).
+  cbn [reload_extra enc_extra_full extra_docs_fix] in *.
+  rewrite (map_enc_ext enc_deco reload_deco) by (intros; apply enc_reload_deco).
+  rewrite forallb_forall in H.
+  rewrite (map_enc_ext (enc_param_full fi) reload_param) by (intros; apply enc_param_full_reload; auto).
+  rewrite enc_reload_ev. reflexivity.
+Qed.
+Lemma enc_extra_full_attach fi x : enc_extra_full fi (attach_extra x) = enc_extra_full fi x.
+Proof.
+  destruct x as [fp|bases decos|decos params ret|v a]; try apply enc_attach_extra.
+  cbn [attach_extra enc_extra_full].
+  rewrite (map_enc_ext enc_deco attach_deco) by (intros; apply enc_attach_deco).
+  rewrite (map_enc_ext (enc_param_full fi) attach_param) by (intros; apply enc_param_full_attach).
+  rewrite enc_attach_top. reflexivity.
+Qed.
+
+Lemma enc_full_attach F prefix t : enc_full F prefix (attach_tree t) = enc_full F prefix t.
+Proof.
+  destruct t as [n ln eln doc ls ms x|]; [|reflexivity]. cbn [attach_tree enc_full].
+  rewrite kind_of_attach, enc_extra_full_attach. destruct x; reflexivity.
+Qed.
+
+Lemma mapM_ext_in {A B} (f g : A -> res B) l : (forall x, In x l -> f x = g x) -> mapM f l = mapM g l.
+Proof.
+  induction l as [|x r IH]; intro H; [reflexivity|]. rewrite !mapM_cons, (H x (or_introl eq_refl)).
+  rewrite IH by (intros; apply H; right; assumption). reflexivity.
+Qed.
+
+Theorem reencode_identical_full : forall F t prefix,
+  rep t = true -> gap_doc t = false -> enc_full F prefix (reload t) = enc_full F prefix t.
+Proof.
+  intros F. induction t using tree_ind'; intros prefix Hrep Hdoc.
+  - cbn [rep] in Hrep. apply andb_true_iff in Hrep as [Hl He]. cbn [reload enc_full].
+    rewrite !zero_to_none_id by assumption. reflexivity.
+  - cbn [rep] in Hrep.
+    apply andb_true_iff in Hrep as [Hrep Hdist]. apply andb_true_iff in Hrep as [Hrep Hms].
+    apply andb_true_iff in Hrep as [Hrep Hleaf]. apply andb_true_iff in Hrep as [Hrep Hmod].
+    apply andb_true_iff in Hrep as [Hlab Hx]. apply list_eqb_eq in Hlab.
+    cbn [gap_doc] in Hdoc. apply orb_false_iff in Hdoc as [Hdoc Hch]. apply orb_false_iff in Hdoc as [Hd1 Hd2].
+    apply negb_false_iff in Hd1, Hd2.
+    cbn [reload enc_full]. rewrite kind_of_reload, Hlab, (enc_extra_full_reload _ _ Hd2), (reload_optdoc_fix _ Hd1).
+    assert (Hl : (if is_module x then None else ln) = ln /\ (if is_module x then None else eln) = eln).
+    { destruct (is_module x); [|auto]. destruct ln, eln; simpl in Hmod; try discriminate. auto. }
+    destruct Hl as [-> ->].
+    assert (Hmem : mapM (fun km : string * tree => let (k, m) := km in bind (enc_full F (dotted prefix n) m) (fun j => Ok (k, j)))
+                     (if has_members x then map (fun km : string * tree => let (_, m) := km in (tree_name m, attach_tree (reload m))) ms else [])
+                   = mapM (fun km : string * tree => let (k, m) := km in bind (enc_full F (dotted prefix n) m) (fun j => Ok (k, j))) ms).
+    { destruct (has_members x).
+      - rewrite mapM_map. apply mapM_ext_in. intros [k m] Hin.
+        rewrite forallb_forall in Hms. specialize (Hms _ Hin). cbv beta iota in Hms.
+        apply andb_true_iff in Hms as [Hms Hr]. apply andb_true_iff in Hms as [E _]. apply String.eqb_eq in E.
+        rewrite enc_full_attach. rewrite Forall_forall in H. specialize (H _ Hin). cbn [snd] in H.
+        rewrite H; [rewrite <- E; reflexivity|assumption|].
+        destruct (gap_doc m) eqn:G; [|reflexivity].
+        assert (existsb (fun km : string * tree => let (_, m0) := km in gap_doc m0) ms = true) by (apply existsb_exists; exists (k, m); auto).
+        congruence.
+      - destruct ms; [reflexivity|discriminate]. }
+    rewrite Hmem. destruct x; reflexivity.
+Qed.
+
+Theorem roundtrip_full : forall F, (forall path, finfo_ok (F path)) ->
+  forall t prefix j, wf t = true -> enc_full F prefix t = Ok j ->
+  exists t', decode j = Ok (PTree t') /\ enc_full F prefix t' = Ok j.
+Proof.
+  intros F HF t prefix j H Henc. unfold wf in H. apply andb_true_iff in H as [Hd Hg]. apply negb_true_iff in Hg.
+  exists (reload t). split; [apply (full_decode F HF t prefix j Hd Henc)|].
+  rewrite reencode_identical_full by assumption. exact Henc.
+Qed.
+
+Example example_full :
+  let F := w_F [mkSection "text" None (JStr "Doc.")] (Some (JStr "/p/pkg/__init__.py")) in
+  (forall path, finfo_ok (F path)) /\ exists j, enc_full F "" ex_tree = Ok j /\ decode j = Ok (PTree ex_tree).
+Proof.
+  split.
+  - intro path. unfold finfo_ok, w_F. cbn [f_filepath f_relative f_relative_package f_parsed f_param_parsed].
+    repeat split; try (intros j H; inversion H; eexists; reflexivity).
+    + constructor; [eexists; vm_compute; reflexivity|constructor].
+    + intros n secs H. discriminate H.
+  - eexists. split; vm_compute; reflexivity.
 Qed.
